@@ -595,6 +595,14 @@ def do_run(mod, prop_id, tier, seed, t0, only_part=None):
     if harness_errors:
         for h in harness_errors:
             print(f"HARNESS-ERROR property={prop_id} {h}")
+        if violations:
+            # the oracle has confirmed violations elsewhere in the same run (each with a replay
+            # file): they are reported; the machinery failure of another shard does not unsay them
+            print(f"{prop_id} {tier} seed={seed}: {len(harness_errors)} shard(s) ended in a harness error; reporting the confirmed violations")
+            for sig, msg, rel in violations:
+                print(f"violation [{sig}]: {msg[:600]}")
+                print(f"VIOLATION property={prop_id} replay={rel}")
+            return 1
         return 2
 
     # 3. starvation: a vacuous run is a harness failure, not evidence
